@@ -295,6 +295,27 @@ def read_parser(path):
     return prec, prods, expr_rows, sizes, bool_rows, unary_rows, e_prods, b_prods, u_prods, defined_by_name
 
 
+def read_encrypt_counter(tree):
+    """SB21Helper._encrypt: `<keyblob>.encrypt_image(base_address=address, data=..., byte_swap=...)` (the AES-CTR counter then
+    starts at the key blob start) or the same call with `counter_value=address` (counter = system address of the data)."""
+    fns = [n for n in ast.walk(tree) if isinstance(n, ast.FunctionDef) and n.name == "_encrypt"]
+    if len(fns) != 1:
+        raise Unextractable("SB21Helper._encrypt")
+    calls = [n for n in ast.walk(fns[0]) if isinstance(n, ast.Call) and isinstance(n.func, ast.Attribute) and n.func.attr == "encrypt_image"]
+    if len(calls) != 1 or calls[0].args:
+        raise Unextractable("_encrypt: exactly one keyword-only call of encrypt_image expected")
+    kws = {k.arg: k.value for k in calls[0].keywords}
+    if set(kws) - {"base_address", "data", "byte_swap", "counter_value"} or "base_address" not in kws:
+        raise Unextractable("_encrypt: encrypt_image keywords")
+    if not (isinstance(kws["base_address"], ast.Name) and kws["base_address"].id == "address"):
+        raise Unextractable("_encrypt: base_address is not `address`")
+    if "counter_value" not in kws:
+        return False
+    if isinstance(kws["counter_value"], ast.Name) and kws["counter_value"].id == "address":
+        return True
+    raise Unextractable("_encrypt: counter_value is not `address`")
+
+
 def read_helper(path):
     tree = ast.parse(open(path).read())
     for n in ast.walk(tree):
@@ -305,7 +326,7 @@ def read_helper(path):
                 if not (isinstance(k, ast.Constant) and isinstance(v, ast.Attribute) and isinstance(v.value, ast.Name) and v.value.id == "self"):
                     raise Unextractable("SB21Helper.cmds entry")
                 out.append((k.value, v.attr))
-            return out
+            return out, read_encrypt_counter(tree)
     raise Unextractable("SB21Helper.cmds")
 
 
@@ -315,8 +336,8 @@ def extract():
     tok_text, reserved, pinned = read_lexer(os.path.join(base, "sly_bd_lexer.py"))
     prec, prods, expr_rows, sizes, bool_rows, unary_rows, e_prods, b_prods, u_prods, defined_by_name = read_parser(
         os.path.join(base, "sly_bd_parser.py"))
-    cmds = read_helper(os.path.join(base, "sb_21_helper.py"))
-    return dict(defined_by_name=defined_by_name, tok_text=tok_text, reserved=reserved, pinned=pinned, prec=prec, prods=prods, expr_rows=expr_rows, sizes=sizes,
+    cmds, enc_ctr_addr = read_helper(os.path.join(base, "sb_21_helper.py"))
+    return dict(defined_by_name=defined_by_name, encrypt_counter_from_address=enc_ctr_addr, tok_text=tok_text, reserved=reserved, pinned=pinned, prec=prec, prods=prods, expr_rows=expr_rows, sizes=sizes,
                 bool_rows=bool_rows, unary_rows=unary_rows, e_prods=e_prods, b_prods=b_prods, u_prods=u_prods, cmds=cmds)
 
 
@@ -366,6 +387,8 @@ def regen():
     out.append("(* every production (nonterminal, right-hand side, action calls self.error) in source order *)\n")
     out.append("Definition productions : list (string * string * bool) :=\n  [" + ";\n   ".join(
         f"({cs(nt)}, {cs(p)}, {'true' if e else 'false'})" for nt, p, e, _ in prods) + "].\n\n")
+    out.append("(* sb_21_helper.py, SB21Helper._encrypt: true = encrypt_image(..., counter_value=address), false = no counter_value *)\n")
+    out.append(f"Definition encrypt_counter_from_address : bool := {'true' if t['encrypt_counter_from_address'] else 'false'}.\n\n")
     out.append("(* sb_21_helper.py: SB21Helper.cmds, statement key -> handler method *)\n")
     out.append("Definition helper_cmds : list (string * string) :=\n  [" + ";\n   ".join(f"({cs(k)}, {cs(v)})" for k, v in cmds) + "].\n")
     text = "".join(out)
